@@ -1,4 +1,5 @@
 import Mamba.Lemmas.CanonFGens
+import Mamba.Lemmas.CanonFClassQ
 import Mamba.Lemmas.CanonFEdgeless
 /-!
 # (b), (c): generators and orbits returned by `CanonicalIsomorphFull` (faithful model `Model/CanonF.lean`)
@@ -33,19 +34,17 @@ theorem isAutG_of_isAutL (g : G) (hg : g.WF) (γ : List Nat) (h : IsAutL (nbrsOf
   cases h1 : g.adj u v <;> cases h2 : g.adj (γ.getD u 0) (γ.getD v 0) <;> simp_all
 
 
-/-- (b), (c) for `CanonicalIsomorphFull`, case `n > 0`, `m > 0` -/
-theorem canonF_cert_full (hst : StablePerm) (hx : ExpandCert) (hy : ExpandStale) (fuel : Nat) (g : G) (hg : g.WF)
-    (vc : Classes) (hvc : ClassesOK g.n vc)
-    (hfirst : ∀ cls c, vc = some cls → cls.head? = some c → c.length ≠ 1)
-    (hn : g.n ≠ 0) (hm : ((nbrsOf g).toList.map List.length).sum / 2 ≠ 0)
+/-- unfolding `CanonicalIsomorphFull` for a non-empty graph: the fresh partition with its invariants and the call of
+`CanonicalIsomorphAllocated` on fresh storage -/
+theorem full_unfold (fuel : Nat) (g : G) (vc : Classes) (hvc : ClassesOK g.n vc) (hn : g.n ≠ 0)
     (r : Res) (h : canonicalIsomorphFull fuel g vc = .ok r) :
-    ∃ gs ds, r.gens = some gs ∧ r.orbits = some ds ∧ (∀ γ ∈ gs, IsAutG g γ) ∧ ds.length = g.n ∧
-      Disjoint.Inv ds.toArray ∧
-      ∀ a b, a < g.n → b < g.n → Disjoint.rep ds.toArray a = Disjoint.rep ds.toArray b →
-        EqvGen (fun x y => ∃ γ ∈ gs, γ[x]? = some y) a b := by
+    ∃ op opR stR, newOrderedPartition g.n (((nbrsOf g).toList.map List.length).sum / 2) vc = .ok (some op) ∧
+      PartInv g.n op ∧ AgeInv op ∧ op.age = 0 ∧ op.spl = 0 ∧ op.value.len = 0 ∧
+      canonicalIsomorphAllocated fuel g.n (((nbrsOf g).toList.map List.length).sum / 2) (nbrsOf g)
+        (some op) (newStorage g.n (((nbrsOf g).toList.map List.length).sum / 2)) {} = .ok (r, opR, stR) := by
   unfold canonicalIsomorphFull at h
   dsimp only at h
-  obtain ⟨op, hnew, hp, ha, hage, hspl, hval, _, _, _, _, _, _, _, _, hbd⟩ :=
+  obtain ⟨op, hnew, hp, ha, hage, hspl, hval, _⟩ :=
     newOrderedPartition_inv (m := ((nbrsOf g).toList.map List.length).sum / 2) (Nat.pos_of_ne_zero hn) hvc
   rw [hnew] at h
   simp only at h
@@ -58,36 +57,7 @@ theorem canonF_cert_full (hst : StablePerm) (hx : ExpandCert) (hy : ExpandStale)
     rw [hal] at h
     simp only at h
     cases h
-    have hedge := hasEdge_of_wf g hg hm
-    have hn2 : g.n ≠ 1 := by
-      obtain ⟨u, v, hu, hv, hne, _⟩ := hedge
-      omega
-    have hcl : CleanPrefix op := by
-      refine ⟨⟨by rw [hspl]; exact Nat.zero_le _, by intro j hj; rw [hspl] at hj; omega⟩, ?_⟩
-      rw [hspl]
-      cases vc with
-      | none =>
-        simp only at hbd
-        rw [hbd]; simp; exact hn2
-      | some cls =>
-        simp only at hbd
-        rw [hbd]
-        cases hcls : cls with
-        | nil =>
-          exfalso
-          have := hvc.1
-          rw [hcls] at this
-          simp at this
-          exact hn this
-        | cons c cs =>
-          rw [scanl_tail_head _ c.length (cs.map List.length) (by simp)]
-          have := hfirst cls c rfl (by rw [hcls]; rfl)
-          intro hc; exact this (Option.some.inj hc)
-    obtain ⟨hnbok, hsz⟩ := nbOK_nbrsOf g hg
-    obtain ⟨gs, ds, e1, e2, e3, e4, e5, e6⟩ := allocated_cert hst hx hy hn hm rfl hp ha hage hcl hspl hval hnbok
-      (fun o ho => certPos_length hnbok hsz ho) hedge hal
-    exact ⟨gs, ds, e1, e2, fun γ hγ => isAutG_of_isAutL g hg γ (e3 γ hγ), e4, e5, e6⟩
-
+    exact ⟨op, opR, stR, hnew, hp, ha, hage, hspl, hval, hal⟩
 
 /-- two vertices are connected by automorphisms of `g` -/
 def SameOrbit (g : G) (a b : Nat) : Prop := EqvGen (fun x y => ∃ γ, IsAutG g γ ∧ γ[x]? = some y) a b
@@ -121,17 +91,40 @@ theorem no_edges_of_m_zero (g : G) (hg : g.WF) (hm : ((nbrsOf g).toList.map List
     · exact hmem v u hlt hv (by rw [hg.symm]; exact hadj)
     · exact hmem u v hgt hu hadj
 
-/-- (b) every generator returned by `CanonicalIsomorphFull` is an automorphism of `g` -/
-theorem canonF_gens_full (hst : StablePerm) (hx : ExpandCert) (hy : ExpandStale) (fuel : Nat) (g : G) (hg : g.WF)
+/-- with a single bin every vertex is in cell 0 -/
+theorem inCell_single {n : Nat} {op : OP} (hp : PartInv n op) (h1 : op.binDividers.len = 1) :
+    ∀ v, v < n → op.inCell.toList[v]? = some 0 := by
+  intro v hv
+  have hmem : v ∈ op.order.toList := hp.perm.mem_iff.2 (List.mem_range.2 hv)
+  obtain ⟨p, hpv⟩ := List.getElem?_of_mem hmem
+  have hpl := (List.getElem?_eq_some_iff.1 hpv).1
+  have holen : op.order.toList.length = n := by rw [Sl.length_toList _ hp.wfOrder, hp.lenOrder]
+  have hbl : op.binDividers.toList.length = 1 := by rw [Sl.length_toList _ hp.wfBd, h1]
+  rw [hp.inCell p v hpv]
+  congr 1
+  match hb : op.binDividers.toList, hbl with
+  | [x], _ =>
+    have hlast := hp.last
+    rw [hb] at hlast
+    simp only [List.getLast?_singleton, Option.some.injEq] at hlast
+    subst hlast
+    unfold binIdx
+    simp only [List.countP_cons, List.countP_nil, decide_eq_true_eq]
+    rw [if_neg (by omega)]
+
+/-- (b), (c): every generator returned by `CanonicalIsomorphFull` is an automorphism of `g`; vertices with the same
+representative in the returned union–find are connected by the returned generators; every generator maps each vertex
+class into itself -/
+theorem canonF_gens_full (hst : StablePerm) (hx : ExpandCert) (fuel : Nat) (g : G) (hg : g.WF)
     (vc : Classes) (hvc : ClassesOK g.n vc)
-    (hfirst : ∀ cls c, vc = some cls → cls.head? = some c → c.length ≠ 1)
     (r : Res) (h : canonicalIsomorphFull fuel g vc = .ok r) :
     (∀ gs, r.gens = some gs → ∀ γ ∈ gs, IsAutG g γ) ∧
     (∀ ds, r.orbits = some ds → ds.length = g.n ∧
       ∀ a b, a < g.n → b < g.n → Disjoint.rep ds.toArray a = Disjoint.rep ds.toArray b → SameOrbit g a b) ∧
     (∀ gs ds, r.gens = some gs → r.orbits = some ds →
       ∀ a b, a < g.n → b < g.n → Disjoint.rep ds.toArray a = Disjoint.rep ds.toArray b →
-        EqvGen (fun x y => ∃ γ ∈ gs, γ[x]? = some y) a b) := by
+        EqvGen (fun x y => ∃ γ ∈ gs, γ[x]? = some y) a b) ∧
+    (∀ gs cls, r.gens = some gs → vc = some cls → ∀ γ ∈ gs, ∀ c ∈ cls, ∀ v ∈ c, ∀ w, γ[v]? = some w → w ∈ c) := by
   by_cases hn : g.n = 0
   · -- the empty graph: nil, nil
     unfold canonicalIsomorphFull at h
@@ -141,54 +134,48 @@ theorem canonF_gens_full (hst : StablePerm) (hx : ExpandCert) (hy : ExpandStale)
     rw [hnew] at h
     simp only [canonicalIsomorphAllocated, hn, if_true] at h
     cases h
-    exact ⟨fun gs hgs => (by cases hgs), fun ds hds => (by cases hds), fun gs ds hgs => (by cases hgs)⟩
-  · by_cases hm : ((nbrsOf g).toList.map List.length).sum / 2 = 0
-    · -- the m == 0 shortcut
-      have h' := h
-      unfold canonicalIsomorphFull at h
-      dsimp only at h
-      obtain ⟨op, hnew, _⟩ :=
-        newOrderedPartition_inv (m := ((nbrsOf g).toList.map List.length).sum / 2) (Nat.pos_of_ne_zero hn) hvc
-      rw [hnew] at h
-      simp only at h
-      cases hal : canonicalIsomorphAllocated fuel g.n (((nbrsOf g).toList.map List.length).sum / 2) (nbrsOf g)
-          (some op) (newStorage g.n (((nbrsOf g).toList.map List.length).sum / 2)) {} with
-      | panic => rw [hal] at h; cases h
-      | outOfFuel => rw [hal] at h; cases h
-      | ok x =>
-        obtain ⟨r', opR, stR⟩ := x
-        rw [hal] at h
-        simp only at h
-        cases h
-        unfold canonicalIsomorphAllocated at hal
-        rw [if_neg hn, if_pos hm] at hal
-        cases he : edgeless g.n (newStorage g.n (((nbrsOf g).toList.map List.length).sum / 2)) with
-        | panic => rw [he] at hal; cases hal
-        | outOfFuel => rw [he] at hal; cases hal
-        | ok y =>
-          obtain ⟨r2, st2⟩ := y
-          rw [he] at hal
-          simp only [Outcome.ok.injEq, Prod.mk.injEq] at hal
-          rw [← hal.1]
-          obtain ⟨gs, ds, e1, e2, e3, e4, e5⟩ := edgeless_cert hn he
-          have haut : ∀ γ ∈ gs, IsAutG g γ := by
-            intro γ hγ
-            refine ⟨e4 γ hγ, ?_⟩
-            intro u v _ _
-            rw [no_edges_of_m_zero g hg hm, no_edges_of_m_zero g hg hm]
-          refine ⟨fun gs' hgs => ?_, fun ds' hds => ?_, fun gs' ds' hgs hds => ?_⟩
-          · rw [e1] at hgs; cases hgs; exact haut
-          · rw [e2] at hds; cases hds
-            refine ⟨e3, ?_⟩
-            intro a b ha hb _
-            apply eqvGen_of_imp _ (e5 a b ha hb)
-            rintro x y ⟨γ, hγ, hxy⟩
-            exact EqvGen.rel _ _ ⟨γ, haut γ hγ, hxy⟩
-          · rw [e1] at hgs; cases hgs
-            intro a b ha hb _
-            exact e5 a b ha hb
-    · obtain ⟨gs, ds, e1, e2, e3, e4, _, e6⟩ := canonF_cert_full hst hx hy fuel g hg vc hvc hfirst hn hm r h
-      refine ⟨fun gs' hgs => ?_, fun ds' hds => ?_, fun gs' ds' hgs hds => ?_⟩
+    exact ⟨fun gs hgs => (by cases hgs), fun ds hds => (by cases hds), fun gs ds hgs => (by cases hgs),
+      fun gs cls hgs => (by cases hgs)⟩
+  · obtain ⟨op, opR, stR, hnew, hp, ha, hage, hspl, hval, hal⟩ := full_unfold fuel g vc hvc hn r h
+    have hn0 : 0 < g.n := Nat.pos_of_ne_zero hn
+    by_cases hsc : ((nbrsOf g).toList.map List.length).sum / 2 = 0 ∧ op.binDividers.len = 1
+    · -- the m == 0 shortcut (a single class)
+      obtain ⟨st2, he⟩ := allocated_shortcut hn hsc.1 hsc.2 hal
+      obtain ⟨gs, ds, e1, e2, e3, e4, e5⟩ := edgeless_cert hn he
+      have haut : ∀ γ ∈ gs, IsAutG g γ := by
+        intro γ hγ
+        refine ⟨e4 γ hγ, ?_⟩
+        intro u v _ _
+        rw [no_edges_of_m_zero g hg hsc.1, no_edges_of_m_zero g hg hsc.1]
+      refine ⟨fun gs' hgs => ?_, fun ds' hds => ?_, fun gs' ds' hgs hds => ?_, fun gs' cls hgs hcls => ?_⟩
+      · rw [e1] at hgs; cases hgs; exact haut
+      · rw [e2] at hds; cases hds
+        refine ⟨e3, ?_⟩
+        intro a b ha hb _
+        apply eqvGen_of_imp _ (e5 a b ha hb)
+        rintro x y ⟨γ, hγ, hxy⟩
+        exact EqvGen.rel _ _ ⟨γ, haut γ hγ, hxy⟩
+      · rw [e1] at hgs; cases hgs
+        intro a b ha hb _
+        exact e5 a b ha hb
+      · rw [e1] at hgs; cases hgs
+        subst hcls
+        intro γ hγ
+        have hperm := e4 γ hγ
+        obtain ⟨hlen, _, hmem⟩ := aut_perm_facts hperm
+        have h0 := inCell_single hp hsc.2
+        apply cls_of_inCell hn0 hvc hnew hperm
+        intro v w hvw
+        have hv : v < g.n := by rw [← hlen]; exact (List.getElem?_eq_some_iff.1 hvw).1
+        have hw : w < g.n := (hmem w).1 (List.mem_of_getElem? hvw)
+        simp only [h0 v hv, h0 w hw]
+    · obtain ⟨hnbok, hsz⟩ := nbOK_nbrsOf g hg
+      obtain ⟨gs, ds, e1, e2, e3', e4, _, e6⟩ := allocated_cert hst hx
+        (clsOrdQ hst g.n (nbrsOf g) (fun v => (op.inCell.toList[v]?).getD 0) op.binDividers.toList)
+        hn (fun hm h1 => hsc ⟨hm, h1⟩) rfl hp ha hage
+        hspl hval (ClsInv.init hp ha hage) hnbok (fun o ho => certPos_length hnbok hsz ho) hal
+      have e3 : ∀ γ ∈ gs, IsAutG g γ := fun γ hγ => isAutG_of_isAutL g hg γ (e3' γ hγ).1
+      refine ⟨fun gs' hgs => ?_, fun ds' hds => ?_, fun gs' ds' hgs hds => ?_, fun gs' cls hgs hcls => ?_⟩
       · rw [e1] at hgs; cases hgs; exact e3
       · rw [e2] at hds; cases hds
         refine ⟨e4, ?_⟩
@@ -199,5 +186,9 @@ theorem canonF_gens_full (hst : StablePerm) (hx : ExpandCert) (hy : ExpandStale)
       · rw [e1] at hgs; cases hgs
         rw [e2] at hds; cases hds
         exact e6
+      · rw [e1] at hgs; cases hgs
+        subst hcls
+        intro γ hγ
+        exact cls_of_inCell hn0 hvc hnew (e3' γ hγ).1.1 (e3' γ hγ).2
 
 end CanonF
